@@ -22,16 +22,24 @@ structure Ctx where
   ign : Bool
   root : Val
   env : Fields
+  /-- the variables that `$let` bound to a missing value (`NOTHING` in `_user_vars`) -/
+  miss : List String
   deriving Inhabited
 
-def Ctx.init (ign : Bool) (d : Val) : Ctx := ⟨ign, d, [("ROOT", d), ("CURRENT", d)]⟩
+def Ctx.init (ign : Bool) (d : Val) : Ctx := ⟨ign, d, [("ROOT", d), ("CURRENT", d)], []⟩
 
 /-- `dict(self._user_vars, **{name: v})` -/
-def Ctx.bind (c : Ctx) (name : String) (v : Val) : Ctx := { c with env := dset name v c.env }
+def Ctx.bind (c : Ctx) (name : String) (v : Val) : Ctx :=
+  { c with env := dset name v c.env, miss := c.miss.filter (fun n => n != name) }
 
-def Ctx.bindAll (c : Ctx) : Fields → Ctx
+/-- the same with a value that may be missing (`_parse_or_nothing` of a `$let` variable) -/
+def Ctx.bindOpt (c : Ctx) (name : String) : Option Val → Ctx
+  | some v => c.bind name v
+  | none => { c with miss := name :: c.miss }
+
+def Ctx.bindAll (c : Ctx) : List (String × Option Val) → Ctx
   | [] => c
-  | (k, v) :: r => (c.bind k v).bindAll r
+  | (k, v) :: r => (c.bindOpt k v).bindAll r
 
 /-- the system variables that `_Parser` does not bind (aggregate.py `_SYSTEM_VARIABLES`): using
     one of them is a KeyError ("missing"), `$$REMOVE` included -/
@@ -39,10 +47,35 @@ def systemVars : List String :=
   ["NOW", "CLUSTER_TIME", "REMOVE", "DESCEND", "PRUNE", "KEEP", "SEARCH_META", "USER_ROLES"]
 
 /-- `'$$name.path'`: a name that is neither bound nor a system variable is an OperationFailure
-    ("Use of undefined variable") -/
+    ("Use of undefined variable"); a variable that `$let` bound to a missing value is missing
+    where it is used, with or without a path -/
 def evalVar (c : Ctx) (parts : List String) : R (Option Val) :=
-  if !(dhas (parts.headD "") c.env) && !(systemVars.contains (parts.headD "")) then .error .opFail
+  if c.miss.contains (parts.headD "") then .ok none
+  else if !(dhas (parts.headD "") c.env) && !(systemVars.contains (parts.headD "")) then
+    .error .opFail
   else getDotGen parts (.doc c.env)
+
+/-- `_validate_variable_name`: `CURRENT`, or a lower-case ASCII letter (or a character outside
+    ASCII) followed by ASCII letters, digits, underscores (or characters outside ASCII) -/
+def isVarStart (ch : Char) : Bool := ('a' ≤ ch && ch ≤ 'z') || ch.toNat ≥ 128
+def isVarChar (ch : Char) : Bool :=
+  ('a' ≤ ch && ch ≤ 'z') || ('A' ≤ ch && ch ≤ 'Z') || ('0' ≤ ch && ch ≤ '9') || ch == '_' ||
+    ch.toNat ≥ 128
+def validVarName (s : String) : Bool :=
+  s = "CURRENT" ||
+  (match s.toList with
+   | [] => false
+   | ch :: r => isVarStart ch && r.all isVarChar)
+
+/-- the operators that take exactly one argument (`_UNARY_OPERATORS`): it may be given as a
+    one-item argument list -/
+def unaryListOps : List String :=
+  unaryArithOps ++ datePartOps ++ ["$arrayToObject", "$isArray", "$isNumber", "$not",
+    "$objectToArray", "$toDecimal", "$toInt", "$toLong", "$toLower", "$toString", "$toUpper"]
+
+/-- the operators that take any number of arguments (`_VARIADIC_OPERATORS`): one that is not an
+    array may be given bare -/
+def variadicOps : List String := ["$add", "$and", "$concat", "$multiply", "$or", "$setUnion"]
 
 /-- `_parse_basic_expression` on a string (aggregate.py:330-347) -/
 def evalBasic (c : Ctx) (s : String) : R (Option Val) :=
@@ -73,7 +106,7 @@ def mode (k : String) (v : Val) : Mode :=
   else if dateOps.contains k then (if hasTzKeys v then .const unmodelled else .whole)
   else if wholeOps.contains k then .whole
   else if groupingOps.contains k then
-    (match v with | .str _ => .whole | .arr _ => .shaped | _ => .const unmodelled)
+    (match v with | .arr _ => .shaped | _ => .whole)
   else if k = "$size" || k = "$concatArrays" then
     (match v with | .arr _ => .shaped | _ => .whole)
   else .shaped
@@ -197,6 +230,20 @@ def asName (gs : Fields) : Option String :=
 def branchesOk (bs : List Val) : Bool :=
   bs.all (fun b => match b with | .doc f => dhas "case" f && dhas "then" f | _ => false)
 
+/-- `{$op: x}` with `x` not a list, for `$add $multiply $concat $and $or $setUnion`: `x` is a
+    one-item argument list (`v = [v]` in `_Parser.parse`); `r` is the outcome of parsing `x` -/
+def applyBare (ign : Bool) (k : String) (r : Option Val) : R (Option Val) :=
+  if k = "$and" || k = "$or" then .ok (some (.bool (toBoolOpt r)))
+  else if k = "$setUnion" then
+    (match r with
+     | none => .ok none
+     | some (.arr xs) => .ok (some (.arr (unionLoop xs [])))
+     | some w => iterErr w)
+  else
+    match manyItem (nullOnMissing ign k) r with
+    | none => .ok none
+    | some x => applyList k [x]
+
 mutual
   /-- `_Parser.parse` (aggregate.py:230-283) -/
   def eval (c : Ctx) : Val → R (Option Val)
@@ -204,7 +251,18 @@ mutual
       if fs.length > 1 && fs.any (fun kv => startsDollar kv.1) then .error .opFail
       else evalDoc c fs []
     | .str s => evalBasic c s
-    | v => .ok (some v)                         -- lists included: returned as they are
+    | .arr xs => do pure (some (.arr (← evalItems c xs)))
+    | v => .ok (some v)
+  termination_by structural x => x
+
+  /-- an array literal: each item is an expression, a missing value gives a null item
+      (whatever `ignore_missing_keys` says) -/
+  def evalItems (c : Ctx) : List Val → R (List Val)
+    | [] => .ok []
+    | x :: r => do
+      let v ← eval c x
+      let vs ← evalItems c r
+      pure (v.getD .null :: vs)
   termination_by structural x => x
 
   /-- the `for k, v in expression.items()` loop; `acc` is `value_dict` -/
@@ -219,11 +277,31 @@ mutual
       | .unknown => .error .opFail
       | .notImpl => .error .notImpl
       | _ =>
-        match mode k v with
-        | .const r => r
-        | .whole => do applyWhole c.ign k (← eval c v)
-        | .shaped => evalOp c k v
+        if unaryListOps.contains k && v.isArr then
+          -- an operator that takes one argument, given an argument list
+          (match v with
+           | .arr xs => evalUnaryList c k xs
+           | _ => .error .other)
+        else if variadicOps.contains k && !v.isArr then do
+          -- an operator that takes any number of arguments, given one that is not a list
+          applyBare c.ign k (← eval c v)
+        else
+          match mode k v with
+          | .const r => r
+          | .whole => do applyWhole c.ign k (← eval c v)
+          | .shaped => evalOp c k v
   termination_by structural x _ => x
+
+  /-- `{$op: [x]}` for an operator that takes exactly one argument: `v = v[0]`, any other number
+      of items is an OperationFailure -/
+  def evalUnaryList (c : Ctx) (k : String) : List Val → R (Option Val)
+    | [x] =>
+      match mode k x with
+      | .const r => r
+      | .whole => do applyWhole c.ign k (← eval c x)
+      | .shaped => evalOp c k x
+    | _ => .error .opFail
+  termination_by structural x => x
 
   /-- the handlers that take their argument apart -/
   def evalOp (c : Ctx) (k : String) : Val → R (Option Val)
@@ -262,37 +340,42 @@ mutual
         if !(dhas "vars" gs) || !(dhas "in" gs) then .error .opFail
         else if gs.any (fun kv => !(["vars", "in"].contains kv.1)) then .error .opFail
         else match dget "vars" gs with
-          | some (.doc _) => do
-            match ← evalVarsAt c gs with
-            | none => pure none
-            | some vs => evalAt (c.bindAll vs) "in" gs
+          | some (.doc vs) =>
+            if !(vs.all (fun kv => validVarName kv.1)) then .error .opFail
+            else do
+              let bs ← evalVarsAt c gs
+              evalAt (c.bindAll bs) "in" gs
           | _ => .error .opFail
       else if k = "$map" then
         if !(dhas "input" gs) || !(dhas "in" gs) then .error .opFail
         else if gs.any (fun kv => !(["input", "as", "in"].contains kv.1)) then .error .opFail
-        else do
-          match ← evalAt c "input" gs with
-          | none | some .null => pure (some .null)
-          | some (.arr items) =>
-            match asName gs with
-            | none => unmodelled
-            | some name =>
-              let r ← mapItems (fun item => evalAt (c.bind name item) "in" gs) items
-              pure (some (.arr r))
-          | some _ => .error .opFail
+        else
+          match asName gs with
+          | none => .error .opFail                    -- the name must be a string
+          | some name =>
+            if !(validVarName name) then .error .opFail
+            else do
+              match ← evalAt c "input" gs with
+              | none | some .null => pure (some .null)
+              | some (.arr items) =>
+                let r ← mapItems (fun item => evalAt (c.bind name item) "in" gs) items
+                pure (some (.arr r))
+              | some _ => .error .opFail
       else if k = "$filter" then
         if gs.any (fun kv => !(["input", "cond", "as"].contains kv.1)) then .error .opFail
         else if !(dhas "input" gs) || !(dhas "cond" gs) then .error .opFail
-        else do
-          match ← evalAt c "input" gs with
-          | none | some .null => pure (some .null)
-          | some (.arr items) =>
-            match asName gs with
-            | none => unmodelled
-            | some name =>
-              let r ← filterItems (fun item => evalAt (c.bind name item) "cond" gs) items
-              pure (some (.arr r))
-          | some v => iterErr v
+        else
+          match asName gs with
+          | none => .error .opFail
+          | some name =>
+            if !(validVarName name) then .error .opFail
+            else do
+              match ← evalAt c "input" gs with
+              | none | some .null => pure (some .null)
+              | some (.arr items) =>
+                let r ← filterItems (fun item => evalAt (c.bind name item) "cond" gs) items
+                pure (some (.arr r))
+              | some v => iterErr v
       else if k = "$cond" then
         if !(dhas "if" gs && dhas "then" gs && dhas "else" gs) then .error .opFail
         else if gs.any (fun kv => !(["if", "then", "else"].contains kv.1)) then .error .opFail
@@ -392,22 +475,20 @@ mutual
     | (k, v) :: r => if k = key then eval c v else evalAt c key r
   termination_by structural x => x
 
-  /-- the `user_vars` comprehension of `$let`, found by walking to the `vars` entry -/
-  def evalVarsAt (c : Ctx) : Fields → R (Option Fields)
-    | [] => .ok (some [])
+  /-- the `user_vars` comprehension of `$let` (`_parse_or_nothing` of every variable, in the outer
+      scope), found by walking to the `vars` entry -/
+  def evalVarsAt (c : Ctx) : Fields → R (List (String × Option Val))
+    | [] => .ok []
     | (k, .doc vs) :: r => if k = "vars" then evalVars c vs else evalVarsAt c r
     | (_, _) :: r => evalVarsAt c r
   termination_by structural x => x
 
-  def evalVars (c : Ctx) : Fields → R (Option Fields)
-    | [] => .ok (some [])
+  def evalVars (c : Ctx) : Fields → R (List (String × Option Val))
+    | [] => .ok []
     | (k, v) :: r => do
-      match ← eval c v with
-      | none => pure none
-      | some x =>
-        match ← evalVars c r with
-        | none => pure none
-        | some xs => pure (some ((k, x) :: xs))
+      let x ← eval c v
+      let xs ← evalVars c r
+      pure ((k, x) :: xs)
   termination_by structural x => x
 
   /-- the branch loop of `$switch`, found by walking to the `branches` entry;
